@@ -13,7 +13,41 @@ RULE = ("one seeded tree of DESIGN.md 5.3 (1-4 layers x main-file state per laye
 
 
 def gen_world(rng, i, tier):
-    return gen.gen_layered_world(rng, i)
+    w = gen.gen_layered_world(rng, i)
+    if gen.name_of(w["read"]) and w["nodes"] and rng.chance(0.2):
+        # the tree changes between two reads of the same process: the second read must see the tree as it is then
+        files = [k for k, n in enumerate(w["nodes"]) if n["t"] == "f"]
+        kind = rng.pick(["rewrite", "delete", "add"]) if files else "add"
+        m = {"kind": kind}
+        if kind in ("rewrite", "delete"):
+            m["index"] = rng.pick(files)
+            m["entries"] = gen.file_entries(rng, 900 + i % 50, maxkeys=4)
+        else:
+            model = gen.model_of(w)
+            dirs = sorted(set(p.rsplit("/", 1)[0] for p in (model["consulted"] if model else []) if p != (model or {}).get("main")))
+            if dirs:
+                from ..models import norm_suffix
+                m["path"] = "%s/zz-new%s" % (rng.pick(dirs), norm_suffix(w["read"].get("suffix")))
+                m["entries"] = gen.file_entries(rng, 950 + i % 40, maxkeys=4)
+            else:
+                m = None
+        if m:
+            w["mutation"] = m
+    return w
+
+
+def mutated_nodes(world):
+    import copy
+    nodes = copy.deepcopy(world["nodes"])
+    m = world["mutation"]
+    if m["kind"] == "rewrite":
+        nodes[m["index"] % len(nodes)]["entries"] = m["entries"]
+        nodes[m["index"] % len(nodes)].pop("c", None)
+    elif m["kind"] == "delete":
+        del nodes[m["index"] % len(nodes)]
+    else:
+        nodes.append({"p": m["path"], "t": "f", "entries": m["entries"], "delim": world["read"]["delim"][0]})
+    return nodes
 
 
 def build_plans(world):
@@ -29,6 +63,21 @@ def build_plans(world):
         ops.append(dict(gen.read_op(read, o=0, cb=cb), tag="read"))
     ops.append({"op": "dump", "k": 0, "ext": False, "tag": "dump"})
     ops.append({"op": "free", "k": 0})
+    if world.get("mutation"):
+        m = world["mutation"]
+        n2 = mutated_nodes(world)
+        if m["kind"] == "delete":
+            ops.append({"op": "env_unlink", "path": world["nodes"][m["index"] % len(world["nodes"])]["p"]})
+        else:
+            target = n2[m["index"] % len(n2)] if m["kind"] == "rewrite" else n2[-1]
+            ops.append({"op": "env_entry", "e": gen.tree_plan([target])[0]})
+        if read["ep"] == "readConfig":
+            ops.append({"op": "newOpts", "o": 1, "options": gen.option_string(read)})
+            ops.append(dict(gen.read_op(read, o=1, cb=cb, in_slot=1), tag="read2"))
+        else:
+            ops.append(dict(gen.read_op(read, o=1, cb=cb), tag="read2"))
+        ops.append({"op": "dump", "k": 1, "ext": False, "tag": "dump2"})
+        ops.append({"op": "free", "k": 1})
     return [{"cfg": world["cfg"], "tree": gen.tree_plan(world["nodes"]), "ops": ops}]
 
 
@@ -93,15 +142,21 @@ def check(world, plans, results):
     model = compare_with_model(v, world, r["rc"], tagged(plan, res, "dump"), res, None)
     # consulted files, as seen by an always-accepting callback
     tree = Tree(world["nodes"])
+    read_idx = [k for k, op in enumerate(plan["ops"]) if op.get("tag") == "read"][0]
     if read.get("cb") and not model["nofile"] and r["rc"] == 0:
-        seen = [norm(p) for p, acc, ok in cb_paths(res) if tree.is_fileish(norm(p))]
+        seen = [norm(p) for p, acc, ok in cb_paths(res, read_idx) if tree.is_fileish(norm(p))]
         if seen != model["consulted"]:
             v.fail("m5:consulted", "files handed to the callback %r differ from the model's consulted list %r" % (seen, model["consulted"]))
     # processing order without callback: the order in which the files were opened
     if not read.get("cb") and not model["nofile"] and r["rc"] == 0:
-        opened = [norm(e[3]) for e in res.get("events", []) if e[2] == "fopen_r" and e[4] == 0 and tree.is_fileish(norm(e[3]))]
+        opened = [norm(e[3]) for e in res.get("events", []) if e[1] == read_idx and e[2] == "fopen_r" and e[4] == 0 and tree.is_fileish(norm(e[3]))]
         if opened and opened != model["consulted"]:
             v.fail("m5:consulted", "files were opened in the order %r, the model's consulted list is %r" % (opened, model["consulted"]))
+    if world.get("mutation") and tagged(plan, res, "read2") is not None:
+        w2 = dict(world, nodes=mutated_nodes(world))
+        r2 = tagged(plan, res, "read2")
+        compare_with_model(v, w2, r2["rc"], tagged(plan, res, "dump2"), res, None, oracle_prefix="m5-after-change")
+        v.probe("tree_changed_between_two_reads_" + world["mutation"]["kind"])
     layers = set()
     for p in model["consulted"]:
         for l in gen.layers_of(read):
